@@ -9,7 +9,7 @@ Import ListNotations.
 Record ls := { l_kv : kv; l_a : astate; l_b : bstate; l_lock : nat; l_apc : nat; l_bpc : nat }.
 
 Definition a_done (a : astate) : bool := a_abort a || Nat.leb 7 (a_pc a).
-Definition b_done (b : bstate) : bool := b_abort b || Nat.leb 3 (b_pc b).
+Definition b_done (b : bstate) : bool := b_abort b || Nat.leb 5 (b_pc b).
 
 Definition lkstep (s : ls) (who : bool) : ls :=
   if who then
